@@ -31,6 +31,18 @@ Definition d_space (d : data) : space := dmap d_dim d.
 Definition d_lg (d : data) : Q -> Q := tab1 (dmap dQQ d).
 Definition d_pw (d : data) : Q -> Q -> Q := tab2 (dmap dQQQ d).
 
+Definition d_tr (d : data) : trname :=
+  let z := dZ d in if z =? 0 then TrIdentity else if z =? 1 then TrLabel else if z =? 2 then TrOnehot else TrNormalize.
+Definition e_tr (t : trname) : data :=
+  I (match t with TrIdentity => 0 | TrLabel => 1 | TrOnehot => 2 | TrNormalize => 3 end).
+(* (0 t) | (1 (ts)) | (2 j t) | (3 kind t) *)
+Definition d_switch (d : data) : switch :=
+  let tag := dZ (dnth 0 d) in
+  if tag =? 0 then SwAll (d_tr (dnth 1 d))
+  else if tag =? 1 then SwList (dmap d_tr (dnth 1 d))
+  else if tag =? 2 then SwDim (dnat (dnth 1 d)) (d_tr (dnth 2 d))
+  else SwByType (dnat (dnth 1 d)) (d_tr (dnth 2 d)).
+
 Definition entries : list (Z * (data -> data)) :=
   [ (901, fun d => e_rows (transform rid (d_lg (dnth 2 d)) (d_space (dnth 0 d)) (d_rows (dnth 1 d))));
     (902, fun d => elist eQQ (pw_args rid (d_lg (dnth 2 d)) (d_space (dnth 0 d)) (d_rows (dnth 1 d))));
@@ -40,4 +52,5 @@ Definition entries : list (Z * (data -> data)) :=
                               (d_rows (dnth 3 d)) (d_rows (dnth 4 d)) (d_rows (dnth 5 d))));
     (906, fun d => elist eQQ (tbounds_space rid (d_lg (dnth 1 d)) (d_space (dnth 0 d))));
     (907, fun d => enat (tdims (d_space d)));
+    (909, fun d => elist e_tr (map tr_of (run_switches (d_space (dnth 0 d)) (dmap d_switch (dnth 1 d)))));
     (908, fun d => ebool (wf_space (d_space (dnth 0 d)) && in_space (d_space (dnth 0 d)) (dmap dQ (dnth 1 d)))) ].
